@@ -247,7 +247,7 @@ def handle (op : String) (args : List String) (impl : Impl) : Option Ans :=
       | some (.nan _) => "nan"
       | none => "err"
     pure { model := m, spec := judgeTotalWord impl, branch := "lex_f64:" ++ tag }
-  | "unit_mul_f64", [u, x] => do
+  | "txt_unit_mul_f64", [u, x] => do
     let f ← unitFactor u
     let b := (x.toList.foldl (fun acc c => acc * 16 + hexVal c) 0)
     pure { model := "ok " ++ showDur (unitMulF64 f (f64OfBits b)), spec := judgeTotalWord impl,
